@@ -1,5 +1,5 @@
 #!/bin/bash
-# tools/mutant_confirm.sh <worktree> <cargo -p crate> <test filter>
+# tools/mutant_confirm.sh <worktree> "<cargo args, e.g. --workspace>" <test filter>
 # Confirms a sub-agent's seeded change in its own scratch worktree: demo fails with patch, passes without, 41 tests pass with patch.
 set -u
 WT=$1; CRATE=$2; FILTER=$3
